@@ -483,9 +483,9 @@ var c16Hostile = []string{
 
 // c16Quick is the part of the pool the quick tier puts in every position; delete positions use
 // c16QuickDel (separator-carrying strings that spell another element's key, and plain neighbours).
-var c16Quick = []string{"", "a", "ab", "a\x00b", "a\x00", "\x00", "b\x00c", "e1\x00a", "L\x00", "a\x01b", "a b", "a|b", "a.b",
-	"label", "v", "e", "g", "__schema__", "_gid", "-x", "日本語", "😀", "e\u0301", "\n", "\ufeff", "a.v.label"}
-var c16QuickDel = []string{"", "a", "ab", "b", "e1", "a\x00b", "a\x00", "b\x00c", "e1\x00a", "a\x00b\x00c", "b\x00", "label"}
+var c16Quick = []string{"", "ab", "a\x00b", "a\x00", "b\x00c", "L\x00", "a\x01b", "a b", "a|b", "a.b",
+	"label", "v", "__schema__", "_gid", "日本語", "😀", "\n", "a.v.label"}
+var c16QuickDel = []string{"", "ab", "b", "e1", "a\x00b", "b\x00c", "e1\x00a", "b\x00"}
 
 // c16Plain: property names and string values travel as plain JSON strings; the line-oriented
 // comparison splits lines at U+0085, U+2028 and U+2029 (which JSON writers may leave unescaped), so
@@ -740,7 +740,7 @@ func c16Gen(r *Run) {
 		r.Dist["float_bit_patterns"] = len(bits)
 	}
 	// 4. byte level: key / prefix / parse functions on tuples from the pool
-	nkeys, nhist, lhist := 400, 10, 8
+	nkeys, nhist, lhist := 300, 8, 8
 	if r.Tier == "thorough" {
 		nkeys, nhist, lhist = 6000, 400, 16
 	}
